@@ -6,6 +6,7 @@ mod hb;
 mod life;
 mod qalloc;
 mod sched;
+mod scenarios;
 mod seq;
 mod types;
 
@@ -231,7 +232,18 @@ fn cmd_conc(args: &[String]) {
     for i in first..first + cases {
         let cseed = only.unwrap_or(seed.wrapping_mul(0x9E3779B97F4A7C15).wrapping_add(i as u64));
         let mode = arg(args, "--mode").unwrap_or("mixed".into());
-        let case = conc::gen_conc_mode(i, cseed, big, &mode);
+        let case = if mode == "scenario" {
+            // the regression scenarios, one per case index (a case-seed below 1000 names one directly)
+            let all = scenarios::all();
+            let idx = only.map(|o| o as usize).unwrap_or(i);
+            if idx >= all.len() {
+                break;
+            }
+            all.into_iter().nth(idx).unwrap().1
+        } else {
+            conc::gen_conc_mode(i, cseed, big, &mode)
+        };
+        let cseed = if mode == "scenario" { only.unwrap_or(i as u64) } else { cseed };
         if let Some(p) = &progress {
             let _ = std::fs::write(p, format!("conc case-seed {}", cseed));
         }
